@@ -21,6 +21,7 @@ package didsubject
 import (
 	"errors"
 	"github.com/nuts-foundation/go-did/did"
+	"github.com/nuts-foundation/nuts-node/storage/orm"
 	"github.com/nuts-foundation/nuts-node/vdr/resolver"
 	"gorm.io/gorm"
 	"time"
@@ -33,7 +34,10 @@ type Resolver struct {
 var _ resolver.DIDResolver = (*Resolver)(nil)
 
 func (r Resolver) Resolve(id did.DID, metadata *resolver.ResolveMetadata) (*did.Document, *resolver.DocumentMetadata, error) {
-	didDocumentMananager := NewDIDDocumentManager(r.DB)
+	// A document version that's still in the change log is pending: it's not published for all methods yet and may still be abandoned.
+	// Such a version (and the keys created for it) must not be visible to the outside world.
+	pending := r.DB.Model(&orm.DIDChangeLog{}).Select("did_document_version_id")
+	didDocumentMananager := NewDIDDocumentManager(r.DB.Where("did_document_version.id NOT IN (?)", pending))
 	var notAfter *time.Time
 	if metadata != nil && metadata.ResolveTime != nil {
 		notAfter = metadata.ResolveTime
